@@ -37,9 +37,6 @@ verus! {
 //@start{
     let ghost d0 = dst@;
 //@}
-//@after 1 self.opos_ch.serialize_to_vec(dst);{
-    proof { assert(dst@ =~= d0 + self.ser_spec()); }
-//@}
 //@fn deserialize_from_slice
 //@ret r
 //@start{
